@@ -1015,3 +1015,85 @@ def b_r15_only_header_errors_out_of_parse(p: Project, rep: Report):
         rep.check("B-R15", f"parse:match-lookup:{text(x)[:40]}", ok, f"{text(x)[:50]}: {why} - a header text that should be refused with OFXHeaderError fails with IndexError instead" if not ok else "", hloc(p, x))
     rep.unit("match_lookups_by_group", n)
     rep.check("B-R15", "parse:match-read-through-groupdict", True, "", f"{n} lookups by group in OFXHeaderBase.parse")
+
+
+def b_r16_optional_header_parts_stay_optional(p: Project, rep: Report):
+    """layouts the header patterns tolerate today"""
+    rep.rule("B-R16", "the parts of the two header notations that may be absent stay optional in the patterns: in OFXHeaderV1.regex the COMPRESSION field lies inside a group that may match nothing (files without it are read today, with compression NONE); in XML_REGEX each of version / encoding / standalone is optional AND no whitespace is REQUIRED between or after them outside those optional groups (`<?xml version=\"1.0\"?>` and a declaration without standalone are XML declarations) - a pattern generated from a field table, or attributes joined by `\\s+`, that makes one of them mandatory refuses files the property lists as tolerated")
+    c = rx.sre_c
+
+    def optional_path(tree, gname, groups):
+        """does the named group lie inside a repeat with minimum 0 (or a branch with an empty alternative)?"""
+        gid = groups.get(gname)
+        if gid is None:
+            return None
+
+        def walk(node, under_opt):
+            for op_, av_ in node:
+                if op_ is c.SUBPATTERN:
+                    if av_[0] == gid:
+                        return under_opt
+                    r = walk(av_[3], under_opt)
+                    if r is not None:
+                        return r
+                elif op_ in (c.MAX_REPEAT, c.MIN_REPEAT):
+                    r = walk(av_[2], under_opt or av_[0] == 0)
+                    if r is not None:
+                        return r
+                elif op_ is c.BRANCH:
+                    for alt in av_[1]:
+                        r = walk(alt, under_opt or any(len(list(a_)) == 0 for a_ in av_[1]))
+                        if r is not None:
+                            return r
+            return None
+
+        return walk(tree, False)
+
+    try:
+        r1 = rx.class_regex(p, HEADER, "OFXHeaderV1")
+        o1 = optional_path(r1.tree, "COMPRESSION", r1.groups)
+        if o1 is None:
+            rep.note("B-R16 undecided: no COMPRESSION group in OFXHeaderV1.regex")
+        else:
+            rep.check("B-R16", "OFXHeaderV1.regex:COMPRESSION-optional", o1, "the COMPRESSION field is mandatory in the version-1 header pattern: a header without it - read today, in every line-break layout, with compression NONE - is refused with OFXHeaderError" if not o1 else "", r1.where)
+    except AnalysisError as e:
+        rep.note(f"B-R16 undecided: {e}")
+    try:
+        r2 = rx.module_regex(p, HEADER, "XML_REGEX")
+    except Exception as e:
+        rep.note(f"B-R16 undecided: XML_REGEX ({e})")
+        return
+    for g in ("xmlversion", "encoding", "standalone"):
+        o = optional_path(r2.tree, g, r2.groups)
+        if o is None:
+            rep.note(f"B-R16 undecided: no {g} group in XML_REGEX")
+        else:
+            rep.check("B-R16", f"XML_REGEX:{g}-optional", o, f"the {g} pseudo-attribute is mandatory in the XML-declaration pattern: a declaration without it is not recognised and the version-2 file is sent down the version-1 path" if not o else "", r2.where)
+
+    # whitespace REQUIRED (min >= 1) outside optional groups, after the first pseudo-attribute position
+    def required_space(node, depth=0, seen_attr=[False]):
+        bad = []
+        for op_, av_ in node:
+            if op_ is c.SUBPATTERN:
+                if av_[0] in (r2.groups.get("xmlversion"), r2.groups.get("encoding"), r2.groups.get("standalone")):
+                    seen_attr[0] = True
+                bad += required_space(av_[3], depth + 1, seen_attr)
+            elif op_ in (c.MAX_REPEAT, c.MIN_REPEAT):
+                inner = list(av_[2])
+                is_ws = len(inner) == 1 and inner[0][0] is c.IN and (rx.charset(inner[0][1]) or set()) >= {" ", "\n"}
+                if av_[0] >= 1 and is_ws and seen_attr[0]:
+                    bad.append(av_)
+                elif av_[0] >= 1:
+                    bad += required_space(av_[2], depth + 1, seen_attr)
+                else:
+                    # optional group: whatever it requires inside is required only when the group is present
+                    had = seen_attr[0]
+                    required_space(av_[2], depth + 1, seen_attr)
+                    seen_attr[0] = seen_attr[0] or had
+            elif op_ is c.BRANCH:
+                for alt in av_[1]:
+                    bad += required_space(alt, depth + 1, seen_attr)
+        return bad
+
+    bad = required_space(r2.tree)
+    rep.check("B-R16", "XML_REGEX:no-required-space-between-optional-attributes", not bad, "whitespace is REQUIRED after an optional pseudo-attribute position (outside the optional groups): a declaration that omits the attribute behind it (`<?xml version=\"1.0\"?>`, or one without standalone) no longer matches" if bad else "", r2.where)
